@@ -604,9 +604,9 @@ pub trait AutoMerge: RemoteSyncHandler {
         );
 
         let local_commits =
-            local.iter().map(|r| r.commit()).collect::<HashSet<_>>();
+            local.iter().map(|r| *r.commit()).collect::<HashSet<_>>();
         let remote_commits =
-            remote.iter().map(|r| r.commit()).collect::<HashSet<_>>();
+            remote.iter().map(|r| *r.commit()).collect::<HashSet<_>>();
 
         // If all the local commits exist in the remote
         // then apply the remote events to the local event
@@ -618,8 +618,14 @@ pub trait AutoMerge: RemoteSyncHandler {
             return Ok(AutoMergeStatus::RewindLocal(remote));
         }
 
-        // Combine the event records
-        local.extend(remote);
+        // Combine the event records, an event that was made
+        // identically on both sides (same commit hash) is
+        // only included once
+        local.extend(
+            remote
+                .into_iter()
+                .filter(|r| !local_commits.contains(r.commit())),
+        );
 
         // Sort by time so the more recent changes will win (LWW)
         local.sort_by(|a, b| a.time().cmp(b.time()));
